@@ -606,7 +606,7 @@ func checkVirt(rs []*tbl.Raw, arg, res string) {
 	for _, r := range rs {
 		enc = append(enc, r.Encode())
 	}
-	w := strings.Join(enc, " || ") + " ; cropMP4 ms:mdatFirst:hdr:between:pad:mvts:payload:zero:timescales = " + arg
+	w := strings.Join(enc, " || ") + " ; cropMP4 ms:mdatFirst:hdr:between:pad:mvts:payload:zero:timescales[:handlers:mode[:dup]] = " + arg
 	p := strings.Split(res, "/")
 	if len(p) < 4 {
 		fail("mp4ff-crop", "crash", w, "cropMP4: "+res)
@@ -620,6 +620,10 @@ func checkVirt(rs []*tbl.Raw, arg, res string) {
 		return
 	}
 	evals++
+	if af := strings.Split(arg, ":"); len(af) >= 12 && af[11] == "dup" {
+		fail("findTrakEnds", "duplicate-track-id", w, "cropMP4 succeeded on an input in which two tracks carry the same track ID (they share one per-track crop state)")
+		return
+	}
 	mdatStart, _ := strconv.ParseUint(p[3], 10, 64)
 	mdatSize, _ := strconv.ParseUint(p[4], 10, 64)
 	ks := u64list(p[6])
